@@ -18,6 +18,7 @@ import tempfile
 
 from .. import core
 from ..core import Family
+from ..extract import parse_source
 from ..sim import fs_live as LV
 from ..sim import fs_tree as T
 
@@ -63,7 +64,7 @@ def _lean_str(s: str) -> str:
 
 def extract_extra() -> None:
     src = core.REPO / "src" / "nauyaca" / "server" / "handler.py"
-    tree = ast.parse(src.read_text())
+    tree = parse_source(src)
     cls = next(n for n in ast.walk(tree) if isinstance(n, ast.ClassDef) and n.name == "StaticFileHandler")
     handle = next(f for f in cls.body if isinstance(f, ast.FunctionDef) and f.name == "handle")
     # module-level (and class-level) string constants, so that `meta=_META_NOT_FOUND` is read as its literal
